@@ -1,4 +1,6 @@
 """C36 — macroexpand-1 / macroexpand (thin: flag wiring and loop shape)."""
+CANON = True
+
 import ast
 
 from .. import compq, pyq
